@@ -54,6 +54,13 @@ var specConsts = map[string]*big.Int{
 	"W2": new(big.Int).Lsh(big1, 128), "W3": new(big.Int).Lsh(big1, 192), "W4": bigR, "W5": new(big.Int).Lsh(big1, 320),
 	"R2P": new(big.Int).Mod(new(big.Int).Mul(bigR, bigR), bigP), "R2N": new(big.Int).Mod(new(big.Int).Mul(bigR, bigR), bigN),
 	"HALFN": new(big.Int).Rsh(bigN, 1),
+	"LAMBDA": hexBig("5363ad4cc05c30e0a5261c028812645a122e22ea20816678df02967c1b23bd72"),
+	"BETA":   hexBig("7ae96a2b657c07106e64479eac3434e99cf0497512f58995c1396c28719501ee"),
+	"GLV_A1": hexBig("3086d221a7d46bcde86c90e49284eb15"), "GLV_NB1": hexBig("e4437ed6010e88286f547fa90abfe4c3"),
+	"GLV_A2": hexBig("114ca50f7a8e2f3f657c1108d9d44cfd8"), "GLV_B2": hexBig("3086d221a7d46bcde86c90e49284eb15"),
+	"GLV_G1": hexBig("3086d221a7d46bcde86c90e49284eb153daa8a1471e8ca7fe893209a45dbb031"),
+	"GLV_G2": hexBig("e4437ed6010e88286f547fa90abfe4c4221208ac9df506c61571b4ae8ac47f71"),
+	"T128": new(big.Int).Lsh(big1, 128), "T383": new(big.Int).Lsh(big1, 383), "T384": new(big.Int).Lsh(big1, 384),
 	"GX": hexBig("79be667ef9dcbbac55a06295ce870b07029bfcdb2dce28d959f2815b16f81798"),
 	"GY": hexBig("483ada7726a3c4655da4fbfc0e1108a8fd17b448a68554199c47d08ffb10d4b8"),
 }
@@ -84,6 +91,11 @@ func (env *SpecEnv) toTerm(v Value, x ast.Expr) *Term {
 			return tt
 		}
 		env.fail("expression %s is not scalar", exprString(x))
+	case *PtrVal:
+		// name of an address-taken scalar local: its current contents
+		if !t.null && !t.reg.dyn && t.sym == nil && isScalarType(subType(t.reg.typ, t.path)) {
+			return env.toTerm(env.e.load(env.state(), t, nil), x)
+		}
 	}
 	env.fail("expression %s does not denote a term (%T)", exprString(x), v)
 	return nil
@@ -170,6 +182,17 @@ func (env *SpecEnv) deref(v Value, x ast.Expr) *RefVal {
 // asRef: pointer or ref -> ref to the object (auto-deref pointers).
 func (env *SpecEnv) asRef(v Value, x ast.Expr) *RefVal {
 	switch p := v.(type) {
+	case *AggVal:
+		// aggregate value (e.g. a table returned by value): view it through a scratch region
+		key := fmt.Sprintf("agg:%p", p)
+		if rv, ok := env.state().ghost[key]; ok {
+			return rv.(*RefVal)
+		}
+		r := env.e.newRegion("value$"+exprString(x), p.typ, true)
+		env.e.storePath(env.state(), r, nil, p.typ, p)
+		rv := &RefVal{reg: r, typ: p.typ}
+		env.state().ghost[key] = rv
+		return rv
 	case *PtrVal:
 		return env.deref(p, x)
 	case *RefVal:
@@ -924,6 +947,72 @@ func (env *SpecEnv) bip66(x ast.Expr) *Term {
 }
 
 func init() {
+	// atom(t): the same value as t, but kept as one opaque symbol (with the defining equation as a
+	// hypothesis) so that polynomial operations on it are not expanded
+	specFuncs["atom"] = func(env *SpecEnv, n *ast.CallExpr) Value {
+		t := env.term(n.Args[0])
+		if t.Op == "var" || t.IsConst() || (t.Op == "app" && t.Name != "toring") {
+			return t
+		}
+		return lift1(t, func(t *Term) *Term {
+			if t.Op == "var" || t.IsConst() {
+				return t
+			}
+			v := mkVar("atom$"+shortKey(t.Key()), t.Sort)
+			env.state().assume(mkEq(v, t))
+			return v
+		})
+	}
+	// slift(x): signed representative of a residue mod N in (-N/2, N/2]
+	specFuncs["slift"] = func(env *SpecEnv, n *ast.CallExpr) Value {
+		t := env.term(n.Args[0])
+		l := mkLift(t)
+		m := modulusOf(t.Sort)
+		half := new(big.Int).Rsh(m, 1)
+		return mkIte(mkLt(mkInt(half), l), mkSub(l, mkInt(m)), l)
+	}
+	// tblok(tbl): projective table invariant -- entry j is on the curve and represents (j+1)*T, T = entry 0
+	specFuncs["tblok"] = func(env *SpecEnv, n *ast.CallExpr) Value {
+		r := env.asRef(env.eval(n.Args[0]), n.Args[0])
+		at := underlying(r.typ).(*types.Array)
+		d := env.e.db.Defines["oncurve"]
+		var cs []*Term
+		var t0 *Term
+		for j := int64(0); j < at.Len(); j++ {
+			ex := &ast.IndexExpr{X: n.Args[0], Index: &ast.BasicLit{Kind: token.INT, Value: fmt.Sprint(j)}}
+			x, y, z := env.pointCoords(ex)
+			sub := &SpecEnv{e: env.e, st: env.st, old: env.old, vars: map[string]Value{"X": x, "Y": y, "Z": z}, fnName: "tblok", inOld: env.inOld}
+			cs = append(cs, sub.boolTerm(d.Body))
+			p := env.state().sub(liftApp("pt", SPt, x, y, z))
+			if j == 0 {
+				t0 = p
+			} else {
+				cs = append(cs, mkEq(p, mkSmul(mkRingConst(SFn, big.NewInt(j+1)), t0)))
+			}
+		}
+		return mkAnd(cs...)
+	}
+	// tsel{x,y,z}(tbl, idx): coordinate selected by a constant-time table scan (0 -> identity coordinates)
+	for ci, cname := range []string{"x", "y", "z"} {
+		ci, cname := ci, cname
+		specFuncs["tsel"+cname] = func(env *SpecEnv, n *ast.CallExpr) Value {
+			r := env.asRef(env.eval(n.Args[0]), n.Args[0])
+			at := underlying(r.typ).(*types.Array)
+			idx := env.term(n.Args[1])
+			dflt := []int64{0, 1, 0}[ci]
+			if len(n.Args) > 2 {
+				dflt = 0
+			}
+			res := mkRingConst(SFp, big.NewInt(dflt))
+			for j := at.Len() - 1; j >= 0; j-- {
+				ex := &ast.IndexExpr{X: n.Args[0], Index: &ast.BasicLit{Kind: token.INT, Value: fmt.Sprint(j)}}
+				x, y, z := env.pointCoords(ex)
+				c := []*Term{x, y, z}[ci]
+				res = mkIte(mkEq(idx, mkInt64(j+1)), c, res)
+			}
+			return res
+		}
+	}
 	specFuncs["bip66"] = func(env *SpecEnv, n *ast.CallExpr) Value { return env.bip66(n.Args[0]) }
 	// abs(p): abstract point represented by a *Point (or affinePoint with z = 1)
 	specFuncs["abs"] = func(env *SpecEnv, n *ast.CallExpr) Value {
